@@ -210,6 +210,7 @@ def check(ctx):
                          "(nothing is sent; the asynchronous variant returns Err(PeerDoesntExist)); judged as 'not sent', see C12" % nostream)
     cov = evidence(mc, gstats, summs, lines, nseg, nev, scripts)
     cov["families_not_run_per_transport"] = skipped
+    cov["discarded_runs"] = nu.discarded_runs(ctx, lines)
     return conclude(ctx, "model_checking", cov, violations, ASSUME)
 
 
